@@ -143,7 +143,7 @@ func (e *Engine) validatedUpTheChain(at ssa.Instruction, depth int) (bool, strin
 }
 
 func ruleContextualTuplesValidated(e *Engine, r *Reporter) {
-	r.Rule("ctx-tuples-validated-before-use", "contextual tuples become readable by an engine (NewRequestStorageWrapper*, NewCombinedTupleReader, check.NewRequest's index) only after each of them passed ValidateTupleForWrite / validateCtxTupleInModel with the error stopping the request", 6)
+	r.Rule("ctx-tuples-validated-before-use", "contextual tuples become readable by an engine (NewRequestStorageWrapper*, NewCombinedTupleReader, check.NewRequest's index) only after each of them passed ValidateTupleForWrite / validateCtxTupleInModel with the error stopping the request", 4)
 	names := map[string]bool{"NewRequestStorageWrapperWithCache": true, "NewRequestStorageWrapper": true, "NewCombinedTupleReader": true}
 	for _, fn := range e.Fns {
 		p := short(pkgOf(fn))
